@@ -36,6 +36,9 @@ class HttpShard(ShardCMC):
         self._session = session
         self.base_url = base_url.rstrip("/") + "/"
         super().__init__(shard_key, shard_spec)
+        # A read-only shard only holds readable minishards: they are looked up
+        # in minishard_dict, which populate_minishard_dict must therefore fill
+        self.minishard_dict = self.ro_minishard_dict
         self.populate_minishard_dict()
         assert self.can_read_cmc
 
